@@ -45,11 +45,13 @@ Record seg := mkSeg {
   sgrp : option string        (* ghost: the group_id it was added with *)
 }.
 
-Inductive pkind := SpikeThresh | InitMembPotential | SpecificCapacitance | Resistivity.
+(* ChannelDens = add_channel_density: a membrane property like the first three (added with validate=False);
+   Resistivity is the intracellular one (added with validation) *)
+Inductive pkind := SpikeThresh | InitMembPotential | SpecificCapacitance | ChannelDens | Resistivity.
 Definition pkind_eqb (a b : pkind) : bool :=
   match a, b with
   | SpikeThresh, SpikeThresh | InitMembPotential, InitMembPotential
-  | SpecificCapacitance, SpecificCapacitance | Resistivity, Resistivity => true
+  | SpecificCapacitance, SpecificCapacitance | ChannelDens, ChannelDens | Resistivity, Resistivity => true
   | _, _ => false
   end.
 
@@ -57,10 +59,12 @@ Record prop := mkProp {
   pk : pkind;
   pval : Z;            (* index into the harness's table of value strings for that kind *)
   pvalid : bool;       (* whether the component (value string, segmentGroup id) meets its schema facets *)
-  pgrp : string        (* segmentGroup attribute *)
+  pgrp : string;       (* segmentGroup attribute *)
+  ploaded : bool       (* the component was read from a file: GeneratedsSuper.__eq__ also compares the XML node a
+                          component was built from, so it equals no other component (add() then never skips it) *)
 }.
 Definition prop_eqb (a b : prop) : bool :=
-  pkind_eqb (pk a) (pk b) && Z.eqb (pval a) (pval b) && String.eqb (pgrp a) (pgrp b).
+  negb (ploaded a) && negb (ploaded b) && pkind_eqb (pk a) (pk b) && Z.eqb (pval a) (pval b) && String.eqb (pgrp a) (pgrp b).
 
 Record cell := mkCell {
   segs : list seg;
@@ -315,11 +319,11 @@ Definition set_prop (c : cell) (k : pkind) (v : Z) (valid : bool) (g : string) :
   | Resistivity =>
     (* intracellular_properties.add(...) validates the new component *)
     if negb valid then BErr BValidation else
-    let p := mkProp k v valid g in
+    let p := mkProp k v valid g false in
     BRet (if existsb (prop_eqb p) (props c) then c else mkCell (segs c) (groups c) (props c ++ [p]))
   | _ =>
     (* membrane_properties.add(..., validate=False) *)
-    let p := mkProp k v valid g in
+    let p := mkProp k v valid g false in
     BRet (if existsb (prop_eqb p) (props c) then c else mkCell (segs c) (groups c) (props c ++ [p]))
   end.
 
@@ -333,7 +337,8 @@ Inductive op :=
 | AddUnbranchedGroup (a : string)
 | Reorder
 | Optimise
-| SetProp (k : pkind) (v : Z) (valid : bool) (g : string).
+| SetProp (k : pkind) (v : Z) (valid : bool) (g : string)
+| Reload.   (* the document is written with NeuroMLWriter and read back; building continues on the loaded cell *)
 
 Definition step (fx : bool) (c : cell) (o : op) : bres cell :=
   match o with
@@ -346,6 +351,7 @@ Definition step (fx : bool) (c : cell) (o : op) : bres cell :=
   | Reorder => BRet (mkCell (segs c) (reorder (groups c)) (props c))
   | Optimise => if fx then optimise c else optimise_gen false c
   | SetProp k v valid g => set_prop c k v valid g
+  | Reload => BRet (mkCell (segs c) (groups c) (map (fun p => mkProp (pk p) (pval p) (pvalid p) (pgrp p) true) (props c)))
   end.
 
 Fixpoint run (fx : bool) (ops : list op) (c : cell) : bres cell :=
@@ -513,7 +519,7 @@ Record c15_case := mkCase15 {
   k_probe_obs : list ostep    (* what each of those calls did (OOtherErr = it returned normally) *)
 }.
 
-Definition kinds : list pkind := [SpikeThresh; InitMembPotential; SpecificCapacitance; Resistivity].
+Definition kinds : list pkind := [SpikeThresh; InitMembPotential; SpecificCapacitance; ChannelDens; Resistivity].
 
 Definition obs_props (c : cell) : list (pkind * Z * string) :=
   flat_map (fun k => map (fun p => (pk p, pval p, pgrp p)) (filter (fun p => pkind_eqb (pk p) k) (props c))) kinds.
